@@ -269,6 +269,20 @@ def axis_conflicts(func_node):
                     checked += 1
                     if (ta, tb) != (vt[1], vt[2]):
                         out.append((n, f'`{unparse(n.value, 40)}` is ({vt[1]},{vt[2]})-ordered but is unpacked into ({ta},{tb}) names `{unparse(t, 40)}`'))
+        # x_name = <Y-ordered projection> * (...x...) : a scale factor of the other axis
+        if isinstance(n, ast.Assign) and len(n.targets) == 1 and isinstance(n.targets[0], ast.Name) \
+                and isinstance(n.value, ast.BinOp) and isinstance(n.value.op, (ast.Mult, ast.Div)):
+            tt = tag(n.targets[0])
+            if isinstance(tt, str):
+                for side in (n.value.left, n.value.right):
+                    if isinstance(side, ast.Subscript) and _const_index(side.slice) in (0, 1) and order_of(side.value) is not None:
+                        st_ = tag(side)
+                        other = n.value.right if side is n.value.left else n.value.left
+                        ot = tag(other)
+                        if isinstance(st_, str) and (ot is None or ot == tt):
+                            checked += 1
+                            if st_ != tt:
+                                out.append((n, f'`{unparse(n.targets[0])}` ({tt}) is scaled by the {st_}-axis element `{unparse(side, 40)}`'))
         # 2-D subscripts [row, col] must be [Y, X]
         if isinstance(n, ast.Subscript) and isinstance(n.slice, ast.Tuple) and len(n.slice.elts) == 2:
             a, b = n.slice.elts
